@@ -88,6 +88,7 @@ type BlobV struct {
 	Val  Value
 	Typ  types.Type
 	Bad  string // Bool term: document is malformed (json)
+	Mis  bool   // a well-formed document with one member of the wrong type: decoding fills the rest and reports an error
 	Gz   int    // gzip wrapping depth (informational)
 }
 
